@@ -62,6 +62,19 @@ class C09(PureCheck):
                     for e in range(s, n + 2):
                         yield {"op": "splice", "f": f, "new": new, "s": s, "e": e, "en": 0}
                 yield {"op": "append", "f": f, "new": new}
+        # runs whose text is spelled like a fragment of the escape sequence that wraps them ("31" in red, "44" on blue,
+        # "1m" in bold), spliced strictly inside - fresh, and after the value was rendered / measured (warm 2, 15)
+        for text, a in (("31", [2, 0, 0, 0, 0, 0, 0, 0]), ("44", [0, 5, 0, 0, 0, 0, 0, 0]), ("1m", [0, 0, 2, 0, 0, 0, 0, 0]),
+                        ("[3", [2, 0, 0, 0, 0, 0, 0, 0]), ("31m", [2, 0, 2, 0, 0, 0, 0, 0]), ("4m", [0, 0, 0, 0, 0, 2, 0, 0])):
+            t = [ord(ch) for ch in text]
+            for f in ([[t, list(a)]], [[[108, 32], [0] * 8], [t, list(a)], [[32, 100], [0] * 8]]):
+                n = vlen(f)
+                for new in (S([120]), F([[[120], fmtlib.RED]]), S([])):
+                    for st in range(0, n + 1):
+                        for w in (0, 2, 15):
+                            yield dict({"op": "splice", "f": f, "new": new, "s": st, "e": 0, "en": 1}, **({"warm": w} if w else {}))
+                            if st < n:
+                                yield dict({"op": "splice", "f": f, "new": new, "s": st, "e": st + 1, "en": 0}, **({"warm": w} if w else {}))
         # values with many runs (a long syntax-highlighted line): splices at the start, around a middle boundary, at the end
         for nruns in (31, 32, 33, 40, 70):
             f = [[[97 + (j % 3)] * (1 + j % 2), list(fmtlib.ATTS3[j % 3])] for j in range(nruns)]
